@@ -99,21 +99,32 @@ Qed.
 (* a non-empty cache: the one the depth-2 search of the start position left *)
 Definition some_cache : ecache := s_cache (snd (first_run 2)).
 
-Example hypotheses_satisfiable :
-  go_eval_injective mated_root /\ go_hash_nonzero mated_root /\
-  go_cache_sound mated_root [] /\ go_cache_sound mated_root some_cache /\ some_cache <> [].
+Lemma some_cache_cold : snd (cache_get go_econsts some_cache (hash mated_root)) = false.
+Proof. vm_compute. reflexivity. Qed.
+Lemma some_cache_length : List.length some_cache = 59%nat.
+Proof. vm_compute. reflexivity. Qed.
+
+(* a universe that consists of one position *)
+Lemma singleton_universe : forall r c,
+  (forall p, visited go_keys r p -> p = r) -> hash r <> 0%N ->
+  snd (cache_get go_econsts c (hash r)) = false ->
+  go_eval_injective r /\ go_hash_nonzero r /\ go_cache_sound r [] /\ go_cache_sound r c.
 Proof.
-  destruct mated_root_facts as (_ & _ & _ & Hnz & _).
-  assert (Hcold : snd (cache_get go_econsts some_cache (hash mated_root)) = false) by (vm_compute; reflexivity).
-  assert (Hne : some_cache <> []) by (vm_compute; discriminate).
-  pose proof mated_root_visited as HV.
-  generalize dependent mated_root. intros r Hnz Hcold HV.
-  split; [|split; [|split; [|split]]].
+  intros r c HV Hnz Hcold.
+  split; [|split; [|split]].
   - intros p q Vp Vq _ _ _. rewrite (HV p Vp), (HV q Vq). reflexivity.
   - intros p Vp _. rewrite (HV p Vp). exact Hnz.
   - apply cache_sound_on_empty. intros p Vp _. rewrite (HV p Vp). exact Hnz.
   - intros p Vp _ v Hg. rewrite (HV p Vp) in Hg. rewrite Hg in Hcold. discriminate.
-  - exact Hne.
+Qed.
+
+Example hypotheses_satisfiable :
+  go_eval_injective mated_root /\ go_hash_nonzero mated_root /\
+  go_cache_sound mated_root [] /\ go_cache_sound mated_root some_cache /\ List.length some_cache = 59%nat.
+Proof.
+  destruct mated_root_facts as (_ & _ & _ & Hnz & _).
+  destruct (singleton_universe mated_root some_cache mated_root_visited Hnz some_cache_cold) as (H1 & H2 & H3 & H4).
+  repeat (split; [assumption|]). exact some_cache_length.
 Qed.
 
 (* so, for this root, with no hypothesis left: *)
